@@ -1,8 +1,10 @@
 """C02 — carved features respect max_n_mod, min_freq_mod and dev robustness."""
+import fractions
+
 import pandas as pd
 
 from harness import k_api, k_select
-from symx import Obligation
+from symx import Obligation, Sym
 
 
 def h_printer(ctx, k, totals, with_absent):
@@ -18,10 +20,110 @@ def h_printer(ctx, k, totals, with_absent):
         if t.rows[i] is None:
             continue
         neg, pos = t.rows[i]
-        ctx.require(k_select.eqv(st.loc[lab, "frequency"], totals[i] / total), "C02.printer-frequency", f"frequency of {lab} is {st.loc[lab, 'frequency']!r}")
+        got = st.loc[lab, "frequency"]
+        # over the reals when the code's value is still a term (exact rational), as the user's float division otherwise; the
+        # bit-level question (is it ONE division?) is O2.6's
+        want = fractions.Fraction(totals[i], total) if isinstance(got, Sym) else totals[i] / total
+        ctx.require(k_select.eqv(got, want) if isinstance(got, Sym) else abs(got - want) <= 1e-12, "C02.printer-frequency", f"frequency of {lab} is {got!r}")
         ctx.require(k_select.eqv(st.loc[lab, "target_rate"] * totals[i], pos), "C02.printer-target-rate", f"target rate of {lab}")
     ctx.require(list(st.index) == labels, "C02.printer-order", "row order changed")
     return dict(counters={"ok": 1}, sample=dict(k=k, totals=totals), result=dict(freq=[st.loc[l, "frequency"] if t.rows[i] is not None else None for i, l in enumerate(labels)]))
+
+
+def _api_boundary_fit(cells, mfm):
+    """Public-API confirmation on a two-modality feature: BinaryCarver with min_freq_mod = mfm must keep `f` iff
+    every modality holds count/N >= mfm (one float division) and the two target rates differ."""
+    import warnings
+
+    from AutoCarver import BinaryCarver
+
+    col, yy = [], []
+    for lab, (neg, pos) in zip("ab", cells):
+        col += [lab] * (neg + pos)
+        yy += [0] * neg + [1] * pos
+    X = pd.DataFrame({"f": pd.Series(col, dtype=object)})
+    y = pd.Series(yy)
+    n = len(col)
+    counts = [neg + pos for neg, pos in cells]
+    min_freq = min(min(counts) / n / 2, 0.5)
+    carver = BinaryCarver(qualitative_features=["f"], min_freq=min_freq, min_freq_mod=mfm, max_n_mod=2, sort_by="cramerv",
+                          dropna=False, copy=True, verbose=False)
+    with warnings.catch_warnings():
+        warnings.simplefilter("ignore")
+        carver.fit(X, y)
+    rates_differ = cells[0][1] * counts[1] != cells[1][1] * counts[0]
+    viable = all(c / n >= mfm for c in counts) and rates_differ
+    return ("f" in carver.features), viable
+
+
+def h_printer_fp(ctx, B):
+    """O2.6: IEEE-double lemma behind the numeric model (F4).  On a two-modality crosstab the `frequency` the real
+    BinaryCarver._printer computes for the rarer modality is, bit for bit, ONE correctly rounded division count/N.
+    (For the rarer modality any other double is observable: min_freq_mod = count/N, or = the computed double, flips the
+    viability decision against the definition.)  Counterexamples are confirmed through BinaryCarver.fit."""
+    from AutoCarver.carvers import binary_carver as bm
+    from symx import fp
+
+    conc = getattr(ctx, "concrete", False)
+    if not conc:
+        ctx.solver.set("timeout", fp.FP_TIMEOUT_MS)
+    labels = ["a", "b"]
+    cells = [(fp.fp_uint(ctx, f"neg{i}", B), fp.fp_uint(ctx, f"pos{i}", B)) for i in range(2)]
+    for neg, pos in cells:
+        fp.assume_positive(ctx, [neg, pos])
+    flat = [c for row in cells for c in row]
+    # modality a is the rarer one (the table is symmetric in its rows); the two target rates differ; both classes occur
+    cnt = [fp.exact_sum(list(r)) for r in cells]
+    if conc:
+        ctx.assume(cnt[0] <= cnt[1])
+        ctx.assume(cells[0][1] * cnt[1] != cells[1][1] * cnt[0])
+        ctx.assume(0 < cells[0][1] + cells[1][1] < cnt[0] + cnt[1])
+    else:
+        import z3
+
+        w = 2 * fp.BVW
+        ext = lambda t: z3.ZeroExt(w - fp.BVW, t)
+        ctx.assume(z3.ULE(cnt[0], cnt[1]))
+        ctx.assume(ext(cells[0][1].bv) * ext(cnt[1]) != ext(cells[1][1].bv) * ext(cnt[0]))
+        pos_tot = fp.exact_sum([cells[0][1], cells[1][1]])
+        ctx.assume(z3.And(z3.UGT(pos_tot, 0), z3.ULT(pos_tot, fp.exact_sum(flat))))
+    xtab = pd.DataFrame({0: pd.Series([r[0] for r in cells], index=labels, dtype=None if conc else object),
+                         1: pd.Series([r[1] for r in cells], index=labels, dtype=None if conc else object)})
+    c = bm.BinaryCarver(min_freq=0.1, sort_by="cramerv", qualitative_features=["f"], copy=True)
+    st = c._printer(xtab)
+    ctx.require(list(st.index) == labels, "C02.printer-order", "row order changed")
+    got = st.loc["a", "frequency"]
+    if conc:
+        n = sum(flat)
+        spec = cnt[0] / n
+        got = float(got)
+        if got != spec:
+            # a threshold that separates the two doubles; the definition (count/N >= min_freq_mod) decides
+            mfm = max(got, spec)
+            kept, viable = _api_boundary_fit(cells, mfm)
+            what = f"crosstab a={cells[0]}, b={cells[1]} (neg, pos), min_freq_mod={mfm!r}: modality a holds count/N={spec!r} of the rows, the carver judges it on {got!r}"
+            if viable:
+                ctx.require(kept, "C01.dropped-although-viable", "feature dropped although its only grouping is viable: " + what, extra=dict(boundary="min_freq_mod == count/N"))
+            else:
+                ctx.require(not kept, "C02.constraint-violated", "feature kept although a modality holds less than min_freq_mod of the rows: " + what, extra=dict(boundary="min_freq_mod == computed frequency"))
+        else:
+            kept, viable = _api_boundary_fit(cells, spec)
+            ctx.require(kept == viable, "C01.dropped-although-viable" if viable else "C02.constraint-violated",
+                        f"min_freq_mod exactly count/N={spec!r}: feature kept={kept}, definition says viable={viable} (crosstab {cells})", extra=dict(boundary="min_freq_mod == count/N"))
+    else:
+        fp.require_ratio(ctx, got, list(cells[0]), flat, "C02.printer-frequency-double",
+                         "the frequency computed for the rarer modality is not the double count/N", extra=dict(column="frequency"))
+    return dict(counters={"ok": 1}, sample=dict(B=B), result=None)
+
+
+def obligation_printer_fp(tier):
+    jobs = [dict(B=15)] + ([] if tier == "quick" else [dict(B=63), dict(B=255)])
+    return Obligation(name="O2.6 IEEE-double lemma: the frequency BinaryCarver judges a modality on is bit-identical to one division count/N (min_freq_mod boundary); counterexamples confirmed through BinaryCarver.fit",
+                      harness=h_printer_fp, jobs=jobs, encodes=["BinaryCarver._printer", "BaseCarver._test_viability (confirmation)", "BinaryCarver.fit (confirmation)"],
+                      rebindings=["none: the real pandas column arithmetic runs on IEEE-double proxies (z3 FloatingPoint theory, RNE, bit-blasted)"],
+                      bounds="two-modality crosstabs, every cell in 0..15 (N <= 60)" + ("" if tier == "quick" else "; cells 0..63 and 0..255"),
+                      outside="more modalities; the target-rate column (a one-ulp difference is far below the isclose tolerance for counts in the bound); ContinuousCarver._printer (its counts are concrete list lengths)",
+                      twin_every=1, budget_s=900.0, abstract_ok=True)
 
 
 def h_minfreqmod(ctx, given):
@@ -54,6 +156,7 @@ def obligations(tier):
         k_select.obligation(tier, {"C02"}, "O2.1b same with the real measures on solver-chosen crosstabs", "real"),
         Obligation(name="O2.2 BinaryCarver._printer: frequency and target_rate equal their definitions", harness=h_printer, jobs=pj,
                    encodes=["BinaryCarver._printer"], bounds="k<=4 modalities, symbolic positives, one modality possibly absent", twin_every=2),
+        obligation_printer_fp(tier),
         Obligation(name="O2.3 min_freq_mod defaults to min_freq/2", harness=h_minfreqmod, jobs=[dict(given=False), dict(given=True)],
                    encodes=["BaseCarver.__init__"], bounds="min_freq any real in (0,0.5]", twin=False),
     ]
